@@ -38,7 +38,7 @@ from ..engine.report import AnalysisError, Run
 from ..engine.resolver import Program, contains_await
 from ..engine.util import find_calls, method_call, nodes_with_call, u
 from ._c06_util import (Flow, Org, Tri, cmp_eval, first_run_sync_name, indent_of, inline_all, lifted, names_eq, pruned, result_sites, seg, spliced, src_patch, stmt_patch,
-                        transitive_helpers, truth_atom, unawait)
+                        transitive_helpers, tri, truth_atom, unawait)
 from .c13 import check_steps, engine_drops_round, step_classes
 from .c19 import check_sync as fallback_sync
 
@@ -142,6 +142,45 @@ class Round:
             return False
         return bool(out)
 
+    def none_scan(self, flow: Flow, call: ast.Call, nid: int) -> bool:
+        """Is `call` a private helper that returns True exactly when some finished task's result is None
+        (the loop spelling of `any(t.result() is None for t in done)`)?"""
+        ch = flow.child(call, nid)
+        if ch is None:
+            return False
+        cfg = ch.cfg
+        rets = ch.returns()
+        vals = {r: cfg.nodes[r].ast.value for r in rets}  # type: ignore[union-attr]
+        if not rets or not all(isinstance(v, ast.Constant) and isinstance(v.value, bool) for v in vals.values()):
+            return False
+        loops = [h for h in cfg.nodes if h.kind == "for" and h.id in ch.live and isinstance(h.ast.target, ast.Name)  # type: ignore[union-attr]
+                 and self.is_done(ch, h.ast.iter, h.id)]  # type: ignore[union-attr]
+        if len(loops) != 1:
+            return False
+        h = loops[0]
+        body0 = [m for m, lab in cfg.succ[h.id] if lab == "iter"]
+        inside = cfg.reachable(body0, avoid=[h.id])
+        after = cfg.reachable([m for m, lab in cfg.succ[h.id] if lab == "done"], avoid=[h.id])
+        if not all((r in inside and vals[r].value is True) or (r in after and r not in inside and vals[r].value is False) for r in rets):  # type: ignore[union-attr]
+            return False
+        if cfg.path(cfg.entry, rets, avoid=[h.id]) is not None:
+            return False
+
+        def scn(is_none: bool) -> Any:
+            def atom(e: ast.AST, n2: int) -> Tri:
+                ta = truth_atom(e)
+                if ta is not None:
+                    c = unawait(ta[0])
+                    if isinstance(c, ast.Call) and isinstance(c.func, ast.Attribute) and c.func.attr == "result" and not c.args \
+                            and all(q.kind == "iter" and q.nid == h.id for q in ch.origin(c.func.value, n2)):
+                        return is_none if ta[1] else not is_none
+                return None
+            return pruned(cfg, lifted(ch, atom))
+
+        trues = [r for r in rets if r in inside]
+        return bool(trues) and cfg.path(body0[0], trues, edge_ok=scn(False)) is None \
+            and cfg.path(body0[0], [h.id], edge_ok=scn(True)) is None and cfg.path(body0[0], trues, edge_ok=scn(True)) is not None
+
     def arrived_atom(self, assign: dict[str, Tri]) -> Callable[[ast.AST, int], Tri]:
         """Atoms `pending` (non-empty) and `none` (some finished task delivered None)."""
         fl = self.fl
@@ -170,6 +209,9 @@ class Round:
                             if u(e.func) == "all" and not is_none:
                                 return None if v is None else (not v)
                 return None
+            if isinstance(e, ast.Call) and len(e.args) + len(e.keywords) == 1 and fl.callee(e) is not None \
+                    and self.is_done(fl, (list(e.args) + [k.value for k in e.keywords])[0], nid) and self.none_scan(fl, e, nid):
+                return assign.get("none")
             if self.is_pending(fl, e, nid):
                 return assign.get("pending")
             if isinstance(e, ast.Compare) and len(e.ops) == 1:
@@ -239,24 +281,51 @@ def check_all(run: Run, prog: Program, rnd: Round) -> None:
         o = fl.origin1(fs, rnd.wait_nid)
         if o is not None and o.kind == "expr" and isinstance(o.node, (ast.ListComp, ast.SetComp, ast.GeneratorExp)):
             comp = o.node
+    def one_task_each(it_expr: ast.AST, target: ast.AST, elt: ast.AST) -> bool:
+        """`elt` is create_task(<the iteration's fetcher>.fetch_next()) for an unfiltered walk over the fetcher table."""
+        it = u(it_expr)
+        if it not in ("self._metric_fetchers.items()", "self._metric_fetchers.values()", "self._metric_fetchers.keys()",
+                      "self._metric_fetchers"):
+            return False
+        bases = set()
+        if it.endswith(".items()") and isinstance(target, ast.Tuple) and len(target.elts) == 2:
+            bases = {u(target.elts[1]), f"self._metric_fetchers[{u(target.elts[0])}]"}
+        elif it.endswith(".values()") and isinstance(target, ast.Name):
+            bases = {target.id}
+        elif isinstance(target, ast.Name):
+            bases = {f"self._metric_fetchers[{target.id}]"}
+        inner = [c for c in ast.walk(elt) if isinstance(c, ast.Call) and _is_fetch_call(c)]
+        tasks = [c for c in ast.walk(elt) if isinstance(c, ast.Call) and u(c.func).endswith("create_task")]
+        return len(inner) == 1 and inner[0].func.attr == "fetch_next" and u(inner[0].func.value) in bases \
+            and len(tasks) == 1 and bool(tasks[0].args) and tasks[0].args[0] is inner[0]  # type: ignore[attr-defined]
+
     ok = comp is not None and len(comp.generators) == 1
     if ok:
         assert comp is not None
         g = comp.generators[0]
-        it = u(g.iter)
-        ok = not g.ifs and not g.is_async and it in ("self._metric_fetchers.items()", "self._metric_fetchers.values()",
-                                                    "self._metric_fetchers.keys()", "self._metric_fetchers")
-        bases = set()
-        if it.endswith(".items()") and isinstance(g.target, ast.Tuple) and len(g.target.elts) == 2:
-            bases = {u(g.target.elts[1]), f"self._metric_fetchers[{u(g.target.elts[0])}]"}
-        elif it.endswith(".values()") and isinstance(g.target, ast.Name):
-            bases = {g.target.id}
-        elif isinstance(g.target, ast.Name):
-            bases = {f"self._metric_fetchers[{g.target.id}]"}
-        inner = [c for c in ast.walk(comp.elt) if isinstance(c, ast.Call) and _is_fetch_call(c)]
-        tasks = [c for c in ast.walk(comp.elt) if isinstance(c, ast.Call) and u(c.func).endswith("create_task")]
-        ok = ok and len(inner) == 1 and inner[0].func.attr == "fetch_next" and u(inner[0].func.value) in bases \
-            and len(tasks) == 1 and bool(tasks[0].args) and tasks[0].args[0] is inner[0]  # type: ignore[attr-defined]
+        ok = not g.ifs and not g.is_async and one_task_each(g.iter, g.target, comp.elt)
+    elif fs is not None:
+        # accumulation-loop form: `tasks = []` ... `for .. in <table>: tasks.append(create_task(f.fetch_next()))`
+        o = fl.origin1(fs, rnd.wait_nid)
+        lst = o.node if o is not None and o.kind == "expr" else None
+        empty = (isinstance(lst, ast.List) and not lst.elts) or (isinstance(lst, ast.Call) and u(lst.func) == "list" and not lst.args)
+        apps = [(n, c) for n, c in fl.calls(lambda c: isinstance(c.func, ast.Attribute) and c.func.attr in (
+            "append", "extend", "insert", "add", "remove", "pop", "clear")) if lst is not None and fl.is_node(c.func.value, lst, n)]  # type: ignore[union-attr]
+        if empty and len(apps) == 1 and apps[0][1].func.attr == "append" and len(apps[0][1].args) == 1:  # type: ignore[union-attr]
+            an, ac = apps[0]
+            loops = [h for h in cfg.nodes if h.kind == "for" and h.id in fl.live and not isinstance(h.ast, ast.AsyncFor)
+                     and an in cfg.reachable([m for m, lab in cfg.succ[h.id] if lab == "iter"], avoid=[h.id])]
+            if len(loops) == 1:
+                h = loops[0]
+                body0 = [m for m, lab in cfg.succ[h.id] if lab == "iter"]
+                nrm = lambda a, b, lab: not lab.startswith("exc:")  # noqa: E731
+                ok = one_task_each(h.ast.iter, h.ast.target, ac.args[0]) \
+                    and (body0[0] == an or cfg.path(body0[0], [h.id], avoid=[an], edge_ok=nrm) is None) \
+                    and not any(isinstance(x, (ast.Break, ast.Return)) for st in h.ast.body for x in ast.walk(st)) \
+                    and cfg.path(cfg.entry, [rnd.wait_nid], avoid=[h.id]) is None \
+                    and cfg.path(an, [an], include_src=False, avoid=[h.id]) is None  # type: ignore[union-attr]
+                if ok:
+                    comp = h.ast  # the fetches of the round live in this loop
     run.check(ok, "C06.ALL", fn.qual, "one fetch_next() task per metric fetcher, no filter",
               "not every input of the formula is fetched in every round", node=w, file=fn.file)
     kws = {k.arg: k.value for k in w.keywords}
@@ -645,21 +714,43 @@ def check_sync(run: Run, prog: Program, rule: str = "C06.SYNC") -> None:
         return bool(o) and all(x.kind == "expr" and any(unawait(x.node) is c for c in latest_calls) for x in o)
 
     # ---- S2: per group, drain while ts < latest
-    outer = [n for n in cfg.nodes if n.kind == "for" and n.id in fl.live and isinstance(n.ast.iter, ast.Call)  # type: ignore[union-attr]
-             and isinstance(n.ast.iter.func, ast.Attribute) and n.ast.iter.func.attr == "items"  # type: ignore[union-attr]
-             and is_G(n.ast.iter.func.value, n.id)  # type: ignore[union-attr]
-             and isinstance(n.ast.target, ast.Tuple) and len(n.ast.target.elts) == 2]  # type: ignore[union-attr]
+    def items_of_G(e: ast.AST | None, nid: int) -> bool:
+        return isinstance(e, ast.Call) and isinstance(e.func, ast.Attribute) and e.func.attr == "items" and not e.args \
+            and is_G(e.func.value, nid)
+
+    def group_source(n: Any) -> ast.comprehension | None | bool:
+        """The loop walks the (timestamp, names) groups: directly (`G.items()` -> True), or a pre-selected list of
+        them (`[(ts, ns) for ts, ns in G.items() if ...]` -> its clause; the filter is judged below)."""
+        if not (isinstance(n.ast.target, ast.Tuple) and len(n.ast.target.elts) == 2):
+            return False
+        if items_of_G(n.ast.iter, n.id):
+            return True
+        o = fl.origin1(n.ast.iter, n.id)
+        c = o.node if o is not None and o.kind == "expr" else None
+        if isinstance(c, ast.Call) and u(c.func) in ("list", "tuple") and len(c.args) == 1:
+            c = c.args[0]
+        if isinstance(c, (ast.ListComp, ast.GeneratorExp)) and len(c.generators) == 1 and not c.generators[0].is_async:
+            g = c.generators[0]
+            if items_of_G(g.iter, o.nid) and isinstance(g.target, ast.Tuple) and len(g.target.elts) == 2 \
+                    and all(isinstance(t, ast.Name) for t in g.target.elts) and isinstance(c.elt, ast.Tuple) \
+                    and [u(x) for x in c.elt.elts] == [u(x) for x in g.target.elts]:
+                return g
+        return False
+
+    outer = [n for n in cfg.nodes if n.kind == "for" and n.id in fl.live and not isinstance(n.ast, ast.AsyncFor) and group_source(n)]
     ok = bool(latest_calls) and len(outer) == 1
     detail = "no loop over the timestamp groups"
     o_id = outer[0].id if ok else -1
     if ok:
         o_iter = outer[0].ast.iter  # type: ignore[union-attr]
+        o_src = group_source(outer[0])
+        pre_iter = o_src.iter if isinstance(o_src, ast.comprehension) else None
         body0 = [m for m, lab in cfg.succ[o_id] if lab == "iter"]
         region_o = cfg.reachable(body0, avoid=[o_id], edge_ok=normal)
         fetched: list[ast.AST] = []  # awaited fetch_next() calls of the drain pass (filled below)
 
         def group_ts(o: Org) -> bool:
-            return o.kind == "iter" and o.idx == 0 and o.node is o_iter
+            return o.kind == "iter" and o.idx == 0 and (o.node is o_iter or (pre_iter is not None and o.node is pre_iter))
 
         def cur_ts(o: Org) -> bool:
             return group_ts(o) or (o.kind == "expr" and isinstance(o.node, ast.Attribute) and o.node.attr == "timestamp"
@@ -685,6 +776,12 @@ def check_sync(run: Run, prog: Program, rule: str = "C06.SYNC") -> None:
                   and any(is_latest(x, n.id) for x in ast.walk(n.ast.test))]  # type: ignore[union-attr]
         ok = len(whiles) == 1
         detail = "the groups are not drained by one loop running while their timestamp is behind the latest"
+        if ok and isinstance(o_src, ast.comprehension):
+            # a pre-selection of the groups must keep every lagging one
+            sel_nid = fl.node_of(o_src.iter)
+            lt_atom = lifted(fl, rel_atom("lt"))
+            ok = all(tri(cond, lambda e: lt_atom(e, sel_nid)) is True for cond in o_src.ifs)
+            detail = "the groups that are synchronised are pre-selected by a condition that can drop a lagging group"
         if ok:
             w = whiles[0]
             wtrue = [m for m, lab in cfg.succ[w.id] if lab == "true"]
@@ -951,8 +1048,9 @@ def build_controls(prog: Program) -> list[tuple[str, str, str, str, str]]:
         if_txt, mid, loop_txt = "".join(lines[i0:i1]), "".join(lines[i1:l0]), "".join(lines[l0:l1])
         add("steps before synchronisation", EVAL, src_patch(ap.module, i0 + 1, l1, lambda t: loop_txt + mid + if_txt), "C06.TS")
     # ONE: a retry receive in the error handler of _fetch_next
-    fnx = prog.func(f"{MF}._fetch_next")
-    for t in (x for x in ast.walk(fnx.node) if isinstance(x, ast.Try)):
+    unit_names = set(getattr(fetch_unit(prog).node, "_inlined", ())) | {"fetch_next"}
+    for fnx, t in ((m, x) for m in prog.cls(MF).methods.values() if m.name in unit_names
+                   for x in ast.walk(m.node) if isinstance(x, ast.Try)):
         if t.handlers and any(isinstance(c, ast.Call) and method_call(c, "self._stream", "receive") for b in t.body for c in ast.walk(b)):
             h = t.handlers[0]
             last = h.body[-1]
